@@ -72,15 +72,31 @@ func genC11(g *gen, tier string) *Scenario {
 			ops = append(ops, Op{Kind: "sleep", Dur: int64(g.rng(1, 50)) * ms})
 		}
 	}
+	heated := g.pct(4)
+	if heated {
+		// a cache that was large, shrank to a small hot set and is saved: its frequency sketch is
+		// sized for the large population, the loading cache's for the few survivors, so the
+		// restored frequencies add up to more than one ageing period of the new sketch
+		sc.Cache.MaxSize = int64(pick(g, 1000, 2000, 3000))
+		sc.Cache.WriteChan, sc.Cache.WriteBuf = 64, 128
+		big := int(sc.Cache.MaxSize)
+		n := g.rng(88, 250)
+		ops = []Op{{Kind: "fill", Key: 0, N: big}, {Kind: "wait"}, {Kind: "delrange", Key: n, N: big - n}, {Kind: "wait"},
+			{Kind: "heat", Key: 0, N: n, Cost: int64(g.rng(15, 22))}, {Kind: "wait"}}
+		sc.Params["mixedcosts"] = 0
+	}
 	sc.Clients = [][]Op{ops}
 	target := sc.Cache.MaxSize
 	sc.Family = "same-size"
-	if g.pct(40) {
+	if !heated && g.pct(40) {
 		target = int64(g.rng(1, int(sc.Cache.MaxSize)-1))
 		sc.Family = "smaller-target"
 	}
-	if long {
+	if long && !heated {
 		sc.Family += ",long-use"
+	}
+	if heated {
+		sc.Family += ",heated"
 	}
 	sc.Params["target"] = target
 	sc.Params["gap"] = pick(g, int64(0), int64(g.rng(1, 5000))*ms, int64(g.rng(5, 200))*sec, int64(g.rng(1, 100))*3600*sec)
